@@ -114,7 +114,10 @@ class GtfLeg(object):
             return {"genes": genes, "order": order, "dialect": d, "keys": keys, "custom": custom,
                     "disable_genes": draw(st.booleans()), "disable_transcripts": draw(st.booleans()),
                     "file_db": draw(st.integers(0, 3)) == 0, "split_update": draw(st.integers(0, 3)) == 0,
-                    "late_exons": draw(st.integers(0, 2)) == 0, "foreign_then_reopen": draw(st.integers(0, 2)) == 0}
+                    "late_exons": draw(st.integers(0, 2)) == 0, "foreign_then_reopen": draw(st.integers(0, 2)) == 0,
+                    "first_disabled": draw(st.integers(0, 2)) == 0,
+                    "merge_strategy": draw(st.sampled_from([None, None, None, "replace", "merge", "create_unique", "warning"])),
+                    "custom_prelude": draw(st.integers(0, 5)) == 0}
 
         return case().filter(lambda c: nlines(c["genes"]) >= 1 and any(
             s["ft"] == "EXON" for g in c["genes"] for t in g["transcripts"] for s in t["subs"]))
@@ -131,6 +134,10 @@ class GtfLeg(object):
             labels.append("exons-arrive-through-update")
         if case.get("foreign_then_reopen") and case["file_db"] and not case["custom"] and (case.get("split_update") or case.get("late_exons")):
             labels.append("constructed-feature-update-and-reopen-before")
+        if case.get("first_disabled") and not case["custom"] and (case.get("split_update") or case.get("late_exons")):
+            labels.append("first-import-with-inference-off")
+        if case.get("merge_strategy"):
+            labels.append("merge_strategy=" + case["merge_strategy"])
         for name, flag in (("multi-transcript", multi_tx), ("shuffled", shuffled), ("explicit-line", explicit),
                            ("exonless-transcript", exonless), ("custom-keys", case["custom"])):
             if flag:
@@ -172,6 +179,17 @@ class GtfLeg(object):
         kw = dict(disable_infer_genes=case["disable_genes"], disable_infer_transcripts=case["disable_transcripts"])
         if case["custom"]:
             kw.update(gtf_transcript_key=tk, gtf_gene_key=gk, gtf_subfeature=sub, id_spec={"gene": gk, "transcript": tk})
+        if case.get("merge_strategy"):
+            # no two lines of a generated file share an id, so the strategy for duplicate lines decides nothing here
+            kw["merge_strategy"] = case["merge_strategy"]
+        if case.get("custom_prelude"):
+            # an unrelated import with custom keys (and no id_spec) earlier in the same process
+            gffutils.create_db('chrP\tsrc\texon\t1\t5\t.\t+\t.\tgid "pg"; tid "pt";\n', ":memory:", from_string=True,
+                               gtf_gene_key="gid", gtf_transcript_key="tid")
+        kw1 = dict(kw)
+        if case.get("first_disabled"):
+            # the first import runs with inference off; the update (inference as generated) then derives for everything stored
+            kw1.update(disable_infer_genes=True, disable_infer_transcripts=True)
         dbfn = ctx.path("a.db") if case["file_db"] else ":memory:"
         split = case.get("split_update")
         if split and len(case["genes"]) >= 2 and not case["custom"]:
@@ -185,8 +203,8 @@ class GtfLeg(object):
             k = sum(1 for r in recs if r["gene"] != last)
             p1 = ctx.write("a1.gtf", "\n".join(lines[:k]) + "\n")
             p2 = ctx.write("a2.gtf", "\n".join(lines[k:]) + "\n")
-            db = gffutils.create_db(p1, dbfn, keep_order=True, **kw)
-            db = self._foreign_then_reopen(case, db, dbfn, kw)
+            db = gffutils.create_db(p1, dbfn, keep_order=True, **kw1)
+            db = self._foreign_then_reopen(case, db, dbfn, kw1)
             db.update(p2, make_backup=False, **kw)
         elif case.get("late_exons") and not case["custom"] and self._late_target(case, model) is not None:
             # the exon lines of one transcript (the only exon-bearing transcript of its gene) arrive later through
@@ -199,8 +217,8 @@ class GtfLeg(object):
                 lines = [tm.render_line(r, d) for r in recs]
                 p1 = ctx.write("a1.gtf", "\n".join(lines[:len(early)]) + "\n")
                 p2 = ctx.write("a2.gtf", "\n".join(lines[len(early):]) + "\n")
-                db = gffutils.create_db(p1, dbfn, keep_order=True, **kw)
-                db = self._foreign_then_reopen(case, db, dbfn, kw)
+                db = gffutils.create_db(p1, dbfn, keep_order=True, **kw1)
+                db = self._foreign_then_reopen(case, db, dbfn, kw1)
                 db.update(p2, make_backup=False, **kw)
                 split = True
             else:
